@@ -266,6 +266,10 @@ def e2e_check(pid, tier, scenarios, trace_spec, corrupt, note, mc_cfgs=(), threa
             vlib.run_harness(binary, ["e2e", "--scenarios", scn_path, "--out", raw,
                                       "--threads", str(th), "--par", str(par)], timeout=3000)
             regroup(raw, trace)
+            with open(trace) as f:
+                for line in f:
+                    if '"harness_error"' in line:
+                        raise vlib.ToolError("harness could not set a scenario up: " + line.strip()[:300])
             total, mism, states = vlib.tlc_validate(trace, "%s-e2e%d" % (pid, run), spec=trace_spec,
                                                     cfg="E2E.cfg", chunk_lines=10**9, parallel=1)
             cov["traces_validated_against_impl"] += len(scenarios)
